@@ -931,8 +931,11 @@ package leveldb
 //@     ghost gItU = (seq <= i.seq ? krank(ukey) : gItU)
 //@   loop 1
 //@     invariant [C02:barrier-covers-the-last-visible-key] (gItHas ==> (i.dir != dirSOI && gItU <= krank(i.key))) && (i.dir != dirSOI ==> gItHas)
+//@     invariant [C02:no-error-so-far] i.err == old(i.err)
 //@   at before stmt return true
 //@     assert [C02:newest-visible-version-of-a-new-key] seq <= i.seq && kt == keyTypeVal && (!gItPrevHas || gItPrevU != krank(ukey))
+//@   ensures [C02:stepping-off-the-end-is-remembered] !result ==> (i.dir == dirEOI || i.err != nil)
+//@   ensures [C02:a-hit-leaves-the-iterator-on-it] result ==> (i.dir == dirForward && i.err == old(i.err))
 
 // A backward step: entries arrive with user keys descending and, within a user key, oldest first; the candidate the
 // step returns is the last visible entry recorded for its user key (hence the newest visible version), it is a
@@ -949,6 +952,7 @@ package leveldb
 //@     ghost gPvHas = false
 //@   loop 1
 //@     invariant [C02:candidate-is-the-last-visible-entry] (!del ==> (gPvHas && gPvIsVal && gPvU == krank(i.key))) && (del ==> (!gPvHas || !gPvIsVal))
+//@     invariant [C02:direction-kept] i.dir == dirBackward
 //@   at before stmt del = (kt == keyTypeDel)
 //@     ghost gPvHas = true
 //@     ghost gPvIsVal = (kt != keyTypeDel)
@@ -957,6 +961,8 @@ package leveldb
 //@     assert [C02:newest-visible-version-complete] gPvHas && gPvIsVal && gPvU == krank(i.key) && krank(ukey) != krank(i.key) && seq <= i.seq
 //@   at before stmt return true#2
 //@     assert [C02:newest-visible-version-at-the-start] gPvHas && gPvIsVal && gPvU == krank(i.key)
+//@   ensures [C02:stepping-off-the-start-is-remembered] !result ==> (i.dir == dirSOI || i.err != nil)
+//@   ensures [C02:a-hit-leaves-the-iterator-on-it] result ==> i.dir == dirBackward
 
 // ---------------------------------------------------------------------------
 // C07: the janitor that runs at open removes a manifest or journal only if it is older than the live one (the
